@@ -110,7 +110,7 @@ def run(rep, tier, pid, gover="1.21", n=None):
     progs = cdiff.gen_programs(rng, n, feats={"postyield", "vars", "closures", "range", "yieldfrom"})
     # control-flow-only programs for the structural correspondence of the optimiser model (coq/Opt.v);
     # a third of their yields become yields of a literal (the Delay around Bind(<literal>, ..) is elided)
-    plain = cdiff.gen_programs(random.Random(rng.random()), n, feats={"postyield"})
+    plain = cdiff.gen_programs(random.Random(rng.random()), n, feats={"postyield", "yieldfrom", "consumer"})
     for k, p in enumerate(plain):
         p["name"] = "Q%d" % k
         lit = random.Random(k)
